@@ -3,9 +3,11 @@
    of psutil/_common.py:_WrapNumbers and of the two callers in psutil/__init__.py),
    specification (ghost history per function name): C10/Spec.v.
    run() and cache_clear() execute under one lock, so a concurrent execution is a
-   sequence of these atomic steps in SOME order: every theorem below quantifies
-   over all sequences, hence over all such orders. *)
-From PV Require Import C10.Spec C10.Proofs.
+   sequence of these atomic steps in SOME order: the sequence theorems quantify
+   over all sequences, hence over all such orders.  The platform read of a public
+   call is a separate step: the two-thread theorems at the end split every call
+   into read and wrap step and quantify over all schedules. *)
+From PV Require Import C10.Spec C10.Proofs C10.ProofsConc.
 
 (* every sequence of wrap_numbers(d, name) / cache_clear(name) / cache_clear() calls
    (unique keys, one tuple width per name): no call fails and every answer is, per
@@ -113,3 +115,27 @@ Theorem C10_nowrap_false_raw : forall legacy s f per raw, raw_ok f raw = true ->
   pstep legacy s (PCall f per false raw) = Val (s, present f per raw).
 Proof. exact nowrap_false_raw. Qed.
 Print Assumptions C10_nowrap_false_raw.
+
+(* two threads, every call split into platform read (what the kernel shows now) and
+   wrap step, code as it is now (commit 3202409: a nowrap=True call holds _nowrap_lock
+   from its read to the end of its wrap step -- the schedules satisfying lock_ok):
+   for EVERY such schedule each answer is the one demanded by the raw kernel readings
+   in the order they were read (no cache_clear while a nowrap=True call is in flight) *)
+Theorem C10_two_threads_locked_exact : forall sched,
+  sched_ok (None, None) sched = true -> lock_ok (None, None) sched = true -> clear_ok (None, None) sched = true ->
+  ctrace [] (None, None) sched = map Val (spec_ctrace [] (None, None) sched).
+Proof. exact locked_exact. Qed.
+Print Assumptions C10_two_threads_locked_exact.
+
+(* fixed finding read-outside-lock: without the lock thread A can be pre-empted between
+   its read (150) and its wrap step while B reads 200 and wraps: the readings never go
+   backwards (demanded: the raw readings), A is answered 350 and the next call 410 *)
+Theorem C10_two_threads_unlocked_refuted :
+  exists sched, sched_ok (None, None) sched = true /\ clear_ok (None, None) sched = true /\
+    lock_ok (None, None) sched = false /\
+    spec_ctrace [] (None, None) sched =
+      [(false, PDict (eth 100)); (true, PDict (eth 200)); (false, PDict (eth 150)); (true, PDict (eth 210))] /\
+    ctrace [] (None, None) sched =
+      [Val (false, PDict (eth 100)); Val (true, PDict (eth 200)); Val (false, PDict (eth 350)); Val (true, PDict (eth 410))].
+Proof. exact unlocked_refuted. Qed.
+Print Assumptions C10_two_threads_unlocked_refuted.
